@@ -218,3 +218,247 @@ def note_tags(beh):
     if c["a"] == "Text":
         return frozenset(["text:" + ",".join(c["lines"])])
     return frozenset(["log:" + json.dumps(c["log"], sort_keys=True) + c["meta"]])
+
+
+# ------------------------------------------------------------------------------------------------------ C18 argv
+import shlex  # noqa: E402
+import shutil  # noqa: E402
+import stat  # noqa: E402
+import tempfile  # noqa: E402
+
+ARGV_TOK = {
+    "w": ["status", "log", "version", "help", "branch", "diff"],
+    "gnv": ["-p", "--paginate", "-P", "--no-pager", "--no-replace-objects", "--bare", "--literal-pathspecs",
+            "--glob-pathspecs", "--noglob-pathspecs", "--icase-pathspecs", "--no-optional-locks"],
+    "gv": ["-C", "-c", "--git-dir", "--work-tree", "--namespace", "--config-env"],
+    "gveq": ["--git-dir=.git", "--work-tree=.", "--namespace=ns", "--exec-path=/usr/lib/git-core",
+             "--config-env=core.x=HOME"],
+    "help": ["--help", "-h"], "version": ["--version", "-v"],
+    "mpath": ["--html-path", "--man-path", "--info-path"],
+    "eoo": ["--"], "unk": ["--frobnicate", "-x", "--shallow-file", "-9"],
+    "gonly": ["--no-literal-pathspecs"],
+    "aonly": ["--no-lazy-fetch", "--no-advice"],
+    "aonlyv": ["--list-cmds", "--attr-source"],
+    "astick": ["-C.", "-ccore.x=y"],
+}
+# a word that follows a value-taking option is its value: make it one git accepts where that is cheap
+GV_VALUE = {"-C": ".", "-c": "core.x=y", "--git-dir": ".git", "--work-tree": ".", "--namespace": "ns",
+            "--config-env": "core.x=HOME", "--list-cmds": "main", "--attr-source": "HEAD"}
+
+STANDIN_ARGV = """#!/bin/sh
+if [ -n "$GITAI_SKIP_MANAGED_HOOKS" ] && [ -n "$VERIF_ARGV_LOG" ]; then
+  for a in "$@"; do printf '%%s\\n' "$a" >> "$VERIF_ARGV_LOG"; done
+  printf '\\0\\n' >> "$VERIF_ARGV_LOG"
+fi
+exec %(git)s "$@"
+"""
+
+
+class ArgvEnv:
+    def __init__(self, scratch):
+        self.dir = tempfile.mkdtemp(prefix="argv-", dir=scratch)
+        self.home = os.path.join(self.dir, "home")
+        os.makedirs(os.path.join(self.home, ".git-ai"))
+        self.repo = os.path.join(self.dir, "r")
+        os.makedirs(self.repo)
+        self.env = dict(os.environ)
+        self.env.update({"HOME": self.home, "GIT_CONFIG_NOSYSTEM": "1", "GIT_TERMINAL_PROMPT": "0",
+                         "GIT_PAGER": "cat", "PAGER": "cat", "TERM": "dumb", "LC_ALL": "C.UTF-8",
+                         "GIT_AI_TEST_DB_PATH": os.path.join(self.dir, "db"), "GIT_AI_DEBUG": "0",
+                         "GIT_AI_TEST_CONFIG_PATCH": json.dumps({"prompt_storage": "notes",
+                                                                 "exclude_prompts_in_repositories": []})})
+        for k in ("GIT_DIR", "GIT_WORK_TREE", "GIT_INDEX_FILE", "GIT_TRACE"):
+            self.env.pop(k, None)
+        self.git(["init", "-q", "-b", "main", "."])
+        self.git(["config", "user.email", "dev@example.invalid"])
+        self.git(["config", "user.name", "Dev"])
+        with open(os.path.join(self.repo, "README"), "w") as fh:
+            fh.write("hello\n")
+        self.git(["add", "-A"])
+        self.git(["commit", "-q", "-m", "base"])
+        self.standin = os.path.join(self.dir, "standin-git")
+        with open(self.standin, "w") as fh:
+            fh.write(STANDIN_ARGV % {"git": "/usr/bin/git"})
+        os.chmod(self.standin, os.stat(self.standin).st_mode | stat.S_IEXEC)
+        with open(os.path.join(self.home, ".git-ai", "config.json"), "w") as fh:
+            json.dump({"git_path": self.standin, "prompt_storage": "notes", "exclude_prompts_in_repositories": []}, fh)
+        self.argv_log = os.path.join(self.dir, "argv.log")
+
+    def git(self, args, env=None, check=True, timeout=20):
+        p = subprocess.run(["/usr/bin/git"] + args, cwd=self.repo, env=env or self.env, stdout=subprocess.PIPE,
+                           stderr=subprocess.PIPE, timeout=timeout)
+        if check and p.returncode != 0:
+            raise RuntimeError("git %s: %s" % (args, p.stderr.decode(errors="replace")))
+        return p
+
+    def real(self, args):
+        """the real git on a vector: (rc, stdout, stderr)"""
+        try:
+            p = self.git(args, check=False, timeout=10)
+            return (p.returncode, p.stdout.decode(errors="replace"), p.stderr.decode(errors="replace"))
+        except subprocess.TimeoutExpired:
+            return ("timeout", "", "")
+
+    def wrapped(self, gitai, args):
+        """the wrapper on a vector -> argv the proxied git received (list) or None if git was not spawned"""
+        if os.path.exists(self.argv_log):
+            os.remove(self.argv_log)
+        env = dict(self.env)
+        env.update({"GIT_AI": "git", "VERIF_ARGV_LOG": self.argv_log})
+        try:
+            p = subprocess.run([gitai] + args, cwd=self.repo, env=env, stdout=subprocess.PIPE, stderr=subprocess.PIPE,
+                               timeout=20)
+            rc = p.returncode
+        except subprocess.TimeoutExpired:
+            rc = "timeout"
+        if not os.path.exists(self.argv_log):
+            return rc, None
+        data = open(self.argv_log).read().split("\0\n")
+        calls = [c.split("\n")[:-1] if c.endswith("\n") else c.split("\n") for c in data if c != ""]
+        return rc, calls
+
+    def cleanup(self):
+        shutil.rmtree(self.dir, ignore_errors=True)
+
+
+def concretise_vec(classes, salt):
+    rnd = random.Random(salt * 7919 + len(classes))
+    toks = []
+    prev_key = None
+    for c in classes:
+        if c == "w" and prev_key in GV_VALUE and rnd.random() < 0.6:
+            t = GV_VALUE[prev_key]
+        else:
+            t = rnd.choice(ARGV_TOK[c])
+        toks.append(t)
+        prev_key = t if c in ("gv", "aonlyv") and prev_key not in GV_VALUE else None
+    return toks
+
+
+ALIASES = {
+    "simple": ({"a1": "status"}, ["a1"]),
+    "args": ({"a1": "log --oneline -n 1"}, ["a1"]),
+    "chain": ({"a1": "a2 -s", "a2": "status"}, ["a1"]),
+    "chain3": ({"a1": "a2", "a2": "a3", "a3": "log -n 1"}, ["a1"]),
+    "self": ({"a1": "a1"}, ["a1"]),
+    "mutual": ({"a1": "a2", "a2": "a1"}, ["a1"]),
+    "shell": ({"a1": "!echo hi"}, ["a1"]),
+    "shell_ws": ({"a1": "  !echo hi"}, ["a1"]),
+    "squote": ({"a1": "log --format='%h %s' -n 1"}, ["a1"]),
+    "dquote": ({"a1": 'log --format="%h %s" -n 1'}, ["a1"]),
+    "escape": ({"a1": "log --format=%h\\ %s -n 1"}, ["a1"]),
+    "globals": ({"a1": "-c core.x=y status"}, ["a1"]),
+    "shadow": ({"status": "log -n 1"}, ["status"]),
+    "shadow_args": ({"log": "status"}, ["log", "-n", "1"]),
+    "none": ({}, ["status"]),
+}
+
+
+def git_expansion(env, typed):
+    """what git itself ends up running for the typed vector: (kind, [cmd, args...])"""
+    e = dict(env.env)
+    e["GIT_TRACE"] = "1"
+    p = env.git(typed, env=e, check=False)
+    err = p.stderr.decode(errors="replace")
+    if "recursive alias" in err or "alias loop" in err:
+        return "loop", []
+    built = [ln for ln in err.splitlines() if "trace: built-in: git " in ln]
+    if built:
+        argv = shlex.split(built[-1].split("trace: built-in: git ", 1)[1])
+        return argv[0], argv
+    if any("trace: run_command: '" in ln or "trace: exec: sh" in ln or "trace: run_command: echo" in ln
+           for ln in err.splitlines()):
+        return "shell", []
+    return "unknown", []
+
+
+def execute_argv(args):
+    gitai, scratch, cfg, behaviour, run_id = args
+    info = {"run": run_id}
+    env = None
+    try:
+        case = behaviour[0]
+        salt = cfg.get("salt", 0)
+        events = [{"ev": "reset", "run": run_id}]
+        if case["a"] == "Vec":
+            classes = case["v"]
+            typed = concretise_vec(classes, salt)
+            r = call([{"id": 1, "op": "argv", "args": typed}])[0]
+            if "panic" in r:
+                info["panic"] = r["panic"]
+                obs = {"same": False, "cmdIdx": 0, "gitSame": False, "e2eSame": False, "e2eDropLead": False}
+            else:
+                recon = r["recon"]
+                same = recon == typed
+                pos = len(r["global"]) + (1 if r["eoo"] else 0) + 1
+                cmd_idx = 0
+                if r["command"] is not None and pos <= len(typed) and typed[pos - 1] == r["command"] and \
+                        recon[:pos] == typed[:pos]:
+                    cmd_idx = pos
+                obs = {"same": same, "cmdIdx": cmd_idx, "gitSame": True, "e2eSame": True, "e2eDropLead": False}
+                e2e = cfg.get("e2e_every") and (hash(run_id) + salt) % cfg["e2e_every"] == 0
+                if not same or e2e:
+                    env = ArgvEnv(scratch)
+                if not same:
+                    # "git itself treats them identically": same exit status, same stdout, and an error message
+                    # on both sides or on neither
+                    a = env.real(typed)
+                    b = env.real(recon)
+                    obs["gitSame"] = (a[0], a[1], bool(a[2].strip())) == (b[0], b[1], bool(b[2].strip()))
+                    if not obs["gitSame"]:
+                        info["git_typed"] = [a[0], a[1][:200], a[2][:200]]
+                        info["git_passed"] = [b[0], b[1][:200], b[2][:200]]
+                if e2e:
+                    rc, calls = env.wrapped(gitai, typed)
+                    obs["e2eSame"] = calls is not None and len(calls) >= 1 and calls[-1] == recon
+                    if calls and typed[:1] == ["--"]:
+                        # what the scanner makes of the vector without its leading "--"
+                        r2 = call([{"id": 2, "op": "argv", "args": typed[1:]}])[0]
+                        obs["e2eDropLead"] = calls[-1] == r2.get("recon")
+                    info["e2e"] = {"rc": rc, "calls": calls}
+                info["typed"] = typed
+                info["passed"] = recon
+            events.append({"ev": "Vec", "v": classes, "obs": obs})
+        else:
+            env = ArgvEnv(scratch)
+            conf, typed = ALIASES[case["k"]]
+            typed = list(typed) + (["-s"] if salt % 2 and case["k"] not in ("shadow_args",) else [])
+            for k, v in conf.items():
+                env.git(["config", "alias." + k, v])
+            gkind, gargv = git_expansion(env, typed)
+            r = call([{"id": 1, "op": "alias_resolve", "repo": env.repo, "args": typed}])[0]
+            if "panic" in r or "err" in r:
+                info["panic"] = r.get("panic") or r.get("err")
+                obs = {"ai": "panic", "git": gkind, "argsSame": False, "passedOK": False}
+            else:
+                res = r["resolved"]
+                ai = "none" if res is None else (res["command"] or "nocmd")
+                args_same = res is not None and [res["command"]] + res["cargs"] == gargv
+                rc, calls = env.wrapped(gitai, typed)
+                passed = calls[-1] if calls else None
+                ok = passed is not None and (passed == typed or (gargv and _strip_globals(passed) == gargv))
+                obs = {"ai": ai, "git": gkind, "argsSame": bool(args_same) or res is None, "passedOK": bool(ok)}
+                info["typed"] = typed
+                info["git_runs"] = gargv
+                info["ai_resolved"] = res
+                info["proxied"] = passed
+            events.append({"ev": "Alias", "k": case["k"], "obs": obs})
+        return events, info, None
+    except Exception as e:
+        import traceback
+        return None, info, "%s\n%s" % (e, traceback.format_exc())
+    finally:
+        if env is not None:
+            env.cleanup()
+
+
+def _strip_globals(argv):
+    r = call([{"id": 1, "op": "argv", "args": argv}])[0]
+    if r.get("command") is None:
+        return argv
+    return [r["command"]] + r["cargs"]
+
+
+def argv_tags(beh):
+    c = beh[0]
+    return frozenset([c["a"] + ":" + (",".join(c["v"]) if c["a"] == "Vec" else c["k"])])
